@@ -34,11 +34,33 @@
 
 
 #include <limits>
+#include <stdexcept>
 
 #include <OpenVolumeMesh/Core/Properties/PropertyStorageBase.hh>
 #include <OpenVolumeMesh/Core/ResourceManager.hh>
 
 namespace OpenVolumeMesh {
+
+void PropertyStorageBase::set_name(std::string _name)
+{
+    if (shared_ && _name != name_) {
+        if (_name.empty()) {
+            throw std::runtime_error("Shared properties must have a name!");
+        }
+        if (const auto *t = tracker()) {
+            for (const auto *other: *t) {
+                if (other != this
+                        && other->shared()
+                        && other->name() == _name
+                        && other->internal_type_name() == internal_type_name())
+                {
+                    throw std::runtime_error("A shared property with this name, type and entity type already exists.");
+                }
+            }
+        }
+    }
+    name_ = std::move(_name);
+}
 
 void PropertyStorageBase::attach_to(const ResourceManager *resman)
 {
